@@ -1,4 +1,5 @@
 """C19 — exploration controls and limits behave as documented."""
+import json
 import re
 
 import lvlib
@@ -42,34 +43,26 @@ def regions(p, r, limit):
 
 
 def region_oracle(p, its):
-    """no alternative is explored for decisions taken inside a non-exploring region: two iterations
-    that agree on everything that happened outside the regions (same events, same order, same
-    results) must agree on what happened inside"""
-    head, ths = threads(p)
-    seen = {}
-    for it in its:
-        inside = False
-        key, full = [], []
-        for t, pc, ret, _c in it["ev"]:
-            ops = ths[int(t)]
-            name = ops[int(pc)].split()[0] if int(pc) < len(ops) else "?"
-            full.append((t, pc, ret))
-            if name == "stop":
-                if not inside:
-                    key.append(("region",))      # where the region sits among the outside events matters
-                inside = True
-            if not inside:
-                key.append((t, pc, ret))
-            if name == "explore":
-                inside = False
-            if name == "skip":
-                inside = True
-        key, full = tuple(key), tuple(full)
-        if key in seen and seen[key] != full:
-            return (f"iterations {seen[key + ('#',)]} and {it['idx']} agree outside the non-exploring region but "
-                    f"differ inside it: {full}")
-        seen[key] = full
-        seen[key + ("#",)] = it["idx"]
+    """no alternative is explored for a decision taken while exploration is off: the entry that `Path::step`
+    advanced to start an iteration (the last entry of the iteration's start path) must be one that was created
+    while exploring.  (Read from the path dumps: every entry carries the `exploring` flag it was created with.)"""
+    for it in its[1:]:
+        st = it.get("start")
+        if not st:
+            continue
+        path = json.loads(st)
+        # the controls act on the rest of ONE execution: the next one starts exploring again (or not, as configured)
+        if path.get("skipping") or path.get("exploring") != path.get("exploring_on_start"):
+            return (f"iteration {it['idx']} starts with skipping={path.get('skipping')} exploring={path.get('exploring')} "
+                    f"(configured: exploring={path.get('exploring_on_start')}): a control call of the previous execution "
+                    f"is still in force")
+        entries = path["branches"]["entries"]
+        if not entries:
+            continue
+        (kind, body), = entries[-1].items()
+        if body.get("exploring") is False:
+            return (f"iteration {it['idx']} starts by advancing a {kind} entry that was created while exploration was "
+                    f"off (position {len(entries) - 1} of its start path)")
     return None
 
 
@@ -120,8 +113,9 @@ def run(ctx):
     failures = []
     nontrivial = 0
     restricted = 0
+    with_starts = lvlib.run_impl([q for q in programs if q not in base], starts=True, max_iters=cap)
     for q in extra:
-        its2, done2 = lvlib.iterations(impl.get(q, []))
+        its2, done2 = lvlib.iterations(with_starts.get(q, []))
         ctx.cov["evaluations"] += len(its2)
         err = region_oracle(q, its2)
         if err:
@@ -152,9 +146,9 @@ def run(ctx):
             if extra:
                 # the unrestricted exploration lacks this result
                 failures.append((q, "missing", "result not in the unrestricted result set: " + sorted(extra)[0]))
-            if len(its2) > len(its):
-                failures.append((q, "forbidden", f"{len(its2)} iterations with controls, {len(its)} without"))
-            err = region_oracle(q, its2)
+            # (the NUMBER of iterations with controls is not judged: a `skip_branch` changes which later entries are
+            # exploring and, through DPOR's marks, can lengthen as well as shorten the exploration)
+            err = region_oracle(q, lvlib.iterations(with_starts.get(q, []))[0])
             if err:
                 failures.append((q, "forbidden", err))
             if len(ctx.cov["samples"]) < 3 and len(its2) < len(its):
